@@ -30,6 +30,25 @@ func runCase(c Case) string {
 		}
 		return sb.String()
 	}
+	if c.Op == "NUM" {
+		// NUM text | NOTNUM | value isFloat isInteger uint64
+		toks := parser.Scan(unhex(c.Fields[0]))
+		if len(toks) != 1 || toks[0].Kind != parser.TokenNumber {
+			return "NOTNUM"
+		}
+		lit := &parser.BasicLit{Kind: toks[0].Kind, Value: toks[0].Value, ValueSpan: toks[0].Span}
+		b := func(x bool) string {
+			if x {
+				return "t"
+			}
+			return "f"
+		}
+		u := "-"
+		if lit.IsInteger() {
+			u = strconv.FormatUint(lit.Uint64(), 10)
+		}
+		return hexs(lit.Value) + " " + b(lit.IsFloat()) + " " + b(lit.IsInteger()) + " " + u
+	}
 	if f, ok := moreOps[c.Op]; ok {
 		return f(c)
 	}
